@@ -5,6 +5,8 @@ import (
 	"flag"
 	"fmt"
 	"os"
+	"runtime/debug"
+	"runtime/pprof"
 	"sort"
 	"strconv"
 	"strings"
@@ -23,6 +25,18 @@ func main() {
 	}
 	if v := os.Getenv("KV_REPO"); v != "" {
 		repoDir = v
+	}
+	// the executor allocates many short-lived values per path: collect less often (bounded by a soft limit)
+	if os.Getenv("GOGC") == "" {
+		debug.SetGCPercent(400)
+		debug.SetMemoryLimit(24 << 30)
+	}
+	if pf := os.Getenv("KV_CPUPROFILE"); pf != "" {
+		f, err := os.Create(pf)
+		if err == nil {
+			pprof.StartCPUProfile(f)
+			defer pprof.StopCPUProfile()
+		}
 	}
 	fs := flag.NewFlagSet("kv", flag.ExitOnError)
 	workers := fs.Int("j", defaultWorkers(), "workers")
